@@ -6,6 +6,7 @@ import Flowjaxv.Driver.ArrTree
 import Flowjaxv.Driver.JaxTr
 import Flowjaxv.Driver.AdDrv
 import Flowjaxv.Driver.AdSplineDrv
+import Flowjaxv.Driver.AdMvnDrv
 import Flowjaxv.Driver.PyTree
 import Flowjaxv.Driver.Masks
 import Flowjaxv.Driver.Wrappers
@@ -59,6 +60,7 @@ def dispatch (line : String) : String :=
       | "admix" => admix args
       | "adnet" => adnet args
       | "adspline" => adspline args
+      | "admvn" => admvn args
       | "pytree" => pytree args
       | "gwrap" => gwrap args
       | "jmod" => jmodOp args
